@@ -1,5 +1,174 @@
-import PatchModel.Spec.Script
+/-
+  C15 / C16 (driver model) — --dry-run changes nothing; only the intended paths are touched.
+
+  All three results are instances of the generic invariant lemmas of Lemmas/DM (`tr_processPatchM`, `inv_processSection`,
+  `tr_finalizeDeferred`): an invariant `I` of the driver state is preserved by the whole of `process_patch` as soon as
+  it is `Framed`, preserved by `createTemp`, and — when not --dry-run — preserved by the operations on the paths of the
+  current section (`SecOk`).
+    C15   `Dry fs0 t0`  tree = fs0, trace = t0 ++ temporaries, deferred lists empty
+    tmp   `Tmp`         no fault scheduled, every tmpCreate directly followed by tmpUnlink
+    C16   `J o c req`   cwd = c, every operation allowed w.r.t. the recorded sections, deferred lists refer to recorded sections
+-/
+import PatchModel.Lemmas.DM
 namespace PatchModel.C16
-/-- placeholder until the driver model's theorems are in (see DESIGN.md section 5/C16) -/
-theorem placeholder : True := trivial
+open PatchModel PatchModel.DM
+
+/-- the paths a run may touch, given the (file to patch, output file) pairs of its sections: those two, the reject file, the backup
+    file, and the directories leading to any of them (created when missing, removed when emptied) -/
+def allowedPath (o : Options) (s : DState) (p : Bytes) : Prop :=
+  ∃ fo ∈ s.sections, ∃ c ∈ [fo.1, fo.2, rejectPath o fo.2, backupName o fo.2],
+    p = absPath s c ∨ ∃ d ∈ dirPrefixes c, p = absPath s d
+
+/-- `absPath` as a function of the working directory -/
+def absC (c p : Bytes) : Bytes := if c.isEmpty || p.head? == some SLASHB then p else c ++ [SLASHB] ++ p
+
+theorem absPath_eq (s : DState) (p : Bytes) : absPath s p = absC s.cwd p := rfl
+
+/-- `allowedPath` as a function of the working directory and the recorded sections -/
+def AllowedC (o : Options) (c : Bytes) (secs : List (Bytes × Bytes)) (p : Bytes) : Prop :=
+  ∃ fo ∈ secs, ∃ x ∈ [fo.1, fo.2, rejectPath o fo.2, backupName o fo.2],
+    p = absC c x ∨ ∃ d ∈ dirPrefixes x, p = absC c d
+
+theorem allowedPath_iff (o : Options) (s : DState) (p : Bytes) : allowedPath o s p ↔ AllowedC o s.cwd s.sections p := Iff.rfl
+
+def OpAllowed (o : Options) (c : Bytes) (secs : List (Bytes × Bytes)) (op : FsOp) : Prop :=
+  op.isTmp = true ∨ ∀ p ∈ op.paths, AllowedC o c secs p
+
+theorem AllowedC.mono {o : Options} {c : Bytes} {secs secs' : List (Bytes × Bytes)} {p : Bytes}
+    (h : AllowedC o c secs p) (hs : ∀ x ∈ secs, x ∈ secs') : AllowedC o c secs' p := by
+  obtain ⟨fo, hfo, r⟩ := h
+  exact ⟨fo, hs fo hfo, r⟩
+
+theorem OpAllowed.mono {o : Options} {c : Bytes} {secs secs' : List (Bytes × Bytes)} {op : FsOp}
+    (h : OpAllowed o c secs op) (hs : ∀ x ∈ secs, x ∈ secs') : OpAllowed o c secs' op :=
+  h.imp id (fun h p hp => (h p hp).mono hs)
+
+/-- the invariant: working directory `c`, every operation so far allowed, every deferred write / removal is for the output file /
+    file to patch of a recorded section, and the sections `req` are recorded -/
+def J (o : Options) (c : Bytes) (req : List (Bytes × Bytes)) (s : DState) : Prop :=
+  s.cwd = c ∧ (∀ op ∈ s.trace, OpAllowed o c s.sections op) ∧ (∀ w ∈ s.dWrites, ∃ fo ∈ s.sections, w.dest = fo.2) ∧
+  (∀ p ∈ s.dRemovals, ∃ fo ∈ s.sections, p = fo.1) ∧ ∀ x ∈ req, x ∈ s.sections
+
+theorem j_framed (o : Options) (c : Bytes) (req : List (Bytes × Bytes)) : Framed (J o c req) :=
+  ⟨fun s s' h _ h2 h3 h4 h5 h6 _ => by unfold J at *; rw [h2, h3, h4, h5, h6]; exact h⟩
+
+theorem j_op {o : Options} {c : Bytes} {req : List (Bytes × Bytes)} {op : FsOp}
+    (h : ∀ s, J o c req s → OpAllowed o c s.sections op) : OpOk (J o c req) op := by
+  constructor
+  intro s fs' hs _
+  refine ⟨hs.1, ?_, hs.2.2.1, hs.2.2.2.1, hs.2.2.2.2⟩
+  intro x hx
+  rcases List.mem_append.1 hx with hx | hx
+  · exact hs.2.1 x hx
+  · rw [List.mem_singleton.1 hx]; exact h s hs
+
+theorem j_tmp (o : Options) (c : Bytes) (req : List (Bytes × Bytes)) (op : FsOp) (hop : op.isTmp = true) :
+    OpOk (J o c req) op := j_op (fun _ _ => Or.inl hop)
+
+theorem j_createTemp (o : Options) (c : Bytes) (req : List (Bytes × Bytes)) : Inv (J o c req) createTemp :=
+  inv_createTemp (j_framed o c req).tick (j_tmp _ _ _ _ rfl) (j_tmp _ _ _ _ rfl)
+
+section path
+variable {o : Options} {c : Bytes} {req : List (Bytes × Bytes)} {fo : Bytes × Bytes} {x : Bytes}
+  (hfo : fo ∈ req) (hx : x ∈ [fo.1, fo.2, rejectPath o fo.2, backupName o fo.2])
+include hfo hx
+
+theorem j_file {s s' : DState} (hs : J o c req s) (hs' : J o c req s') : AllowedC o c s'.sections (absPath s x) :=
+  ⟨fo, hs'.2.2.2.2 fo hfo, x, hx, Or.inl (by rw [absPath_eq, hs.1])⟩
+
+theorem j_dir {s s' : DState} (hs : J o c req s) (hs' : J o c req s') {d : Bytes} (hd : d ∈ dirPrefixes x) :
+    AllowedC o c s'.sections (absPath s d) :=
+  ⟨fo, hs'.2.2.2.2 fo hfo, x, hx, Or.inr ⟨d, hd, by rw [absPath_eq, hs.1]⟩⟩
+
+theorem j_path : PathOk (J o c req) x := by
+  refine ⟨fun s hs => j_op fun s' hs' => Or.inr ?_, fun s b hs => j_op fun s' hs' => Or.inr ?_,
+    fun s hs => j_op fun s' hs' => Or.inr ?_, fun s m hs => j_op fun s' hs' => Or.inr ?_,
+    fun s t hs => j_op fun s' hs' => Or.inr ?_, fun s d hs hd => j_op fun s' hs' => Or.inr ?_,
+    fun s d hs hd => j_op fun s' hs' => Or.inr ?_⟩
+  all_goals
+    intro p hp
+    simp only [FsOp.paths, List.mem_singleton] at hp
+    subst hp
+  all_goals first | exact j_file hfo hx hs hs' | exact j_dir hfo hx hs hs' hd
+end path
+theorem j_sec (o : Options) (c a b : Bytes) : SecOk (J o c [(a, b)]) o a b := by
+  have hm : (a, b) ∈ [(a, b)] := List.mem_singleton.2 rfl
+  refine ⟨j_path hm (by simp), j_path hm (by simp), j_path hm (by simp), j_path hm (by simp), ⟨fun s hs => j_op fun s' hs' => Or.inr ?_⟩,
+    fun w hw => ⟨fun s hs => ?_⟩, ⟨fun s hs => ?_⟩⟩
+  · intro p hp
+    simp only [FsOp.paths, List.mem_cons, List.not_mem_nil, or_false] at hp
+    rcases hp with rfl | rfl
+    · exact j_file (x := b) hm (by simp) hs hs'
+    · exact j_file (x := backupName o b) hm (by simp) hs hs'
+  · refine ⟨hs.1, hs.2.1, ?_, hs.2.2.2.1, hs.2.2.2.2⟩
+    intro w' hw'
+    rcases List.mem_append.1 hw' with h | h
+    · exact hs.2.2.1 w' h
+    · rw [List.mem_singleton.1 h, hw]; exact ⟨(a, b), hs.2.2.2.2 _ hm, rfl⟩
+  · refine ⟨hs.1, hs.2.1, hs.2.2.1, ?_, hs.2.2.2.2⟩
+    intro p hp
+    rcases List.mem_append.1 hp with h | h
+    · exact hs.2.2.2.1 p h
+    · rw [List.mem_singleton.1 h]; exact ⟨(a, b), hs.2.2.2.2 _ hm, rfl⟩
+
+theorem j_processSection (o : Options) (c : Bytes) (format : Format) : Inv (J o c []) (processSection o format) := by
+  refine inv_processSection (I' := fun a b => J o c [(a, b)]) format (j_framed o c []) (fun _ _ => j_framed o c _)
+    (fun _ _ => j_createTemp o c _) ?_ ?_ (fun _ a b => j_sec o c a b)
+  · intro a b s hs
+    have hsub : ∀ x ∈ s.sections, x ∈ s.sections ++ [(a, b)] := fun x hx => List.mem_append_left _ hx
+    refine ⟨hs.1, fun op hop => (hs.2.1 op hop).mono hsub, ?_, ?_, ?_⟩
+    · intro w hw
+      obtain ⟨fo, hfo, h⟩ := hs.2.2.1 w hw
+      exact ⟨fo, hsub fo hfo, h⟩
+    · intro p hp
+      obtain ⟨fo, hfo, h⟩ := hs.2.2.2.1 p hp
+      exact ⟨fo, hsub fo hfo, h⟩
+    · intro x hx
+      rw [List.mem_singleton.1 hx]
+      exact List.mem_append_right _ (List.mem_singleton.2 rfl)
+  · intro a b s hs
+    exact ⟨hs.1, hs.2.1, hs.2.2.1, hs.2.2.2.1, nofun⟩
+
+/-- the invariant of the whole run -/
+def K (o : Options) (s : DState) : Prop := ∃ c, J o c [] s
+
+theorem k_framed (o : Options) : Framed (K o) :=
+  ⟨fun s s' ⟨c, h⟩ h1 h2 h3 h4 h5 h6 h7 => ⟨c, (j_framed o c []).frame s s' h h1 h2 h3 h4 h5 h6 h7⟩⟩
+
+theorem k_processPatchM (o : Options) :
+    Tr (fun s => s.trace = [] ∧ s.dWrites = [] ∧ s.dRemovals = []) (processPatchM o) (K o) := by
+  have hinit : ∀ (s : DState) (c : Bytes), s.trace = [] ∧ s.dWrites = [] ∧ s.dRemovals = [] → s.cwd = c → J o c [] s := by
+    rintro s c ⟨h1, h2, h3⟩ hc
+    refine ⟨hc, ?_, ?_, ?_, nofun⟩
+    · rw [h1]; nofun
+    · rw [h2]; nofun
+    · rw [h3]; nofun
+  refine tr_processPatchM (k_framed o) (fun s hs => ⟨s.cwd, hinit s _ hs rfl⟩) (fun s hs => ⟨o.directory, hinit _ _ hs rfl⟩)
+    (inv_exists fun c => j_createTemp o c []) (fun format => inv_exists fun c => j_processSection o c format) ?_
+  refine tr_finalizeDeferred ?_
+  rintro s0 ⟨c, hs0⟩
+  refine ⟨J o c s0.sections, j_framed o c _, ⟨hs0.1, hs0.2.1, hs0.2.2.1, hs0.2.2.2.1, fun _ h => h⟩, ?_, ?_, ?_⟩
+  · intro w hw
+    obtain ⟨fo, hfo, h⟩ := hs0.2.2.1 w hw
+    rw [h]; exact j_path hfo (by simp)
+  · intro p hp
+    obtain ⟨fo, hfo, h⟩ := hs0.2.2.2.1 p hp
+    rw [h]; exact j_path hfo (by simp)
+  · intro s hs
+    exact ⟨c, hs.1, hs.2.1, hs.2.2.1, hs.2.2.2.1, nofun⟩
+
+/-- **C16**: every mutating operation of a run is on an allowed path or on an anonymous temporary -/
+theorem C16_paths (o : Options) (s0 : DState)
+    (h0 : s0.trace = [] ∧ s0.sections = [] ∧ s0.dWrites = [] ∧ s0.dRemovals = [] ∧ s0.cwd = []) :
+    ∀ op ∈ (runPatch o s0).2.trace, op.isTmp = true ∨ ∀ p ∈ op.paths, allowedPath o (runPatch o s0).2 p := by
+  have hP : s0.trace = [] ∧ s0.dWrites = [] ∧ s0.dRemovals = [] := ⟨h0.1, h0.2.2.1, h0.2.2.2.1⟩
+  have hK0 : K o s0 := ⟨s0.cwd, rfl, by rw [h0.1]; nofun, by rw [h0.2.2.1]; nofun, by rw [h0.2.2.2.1]; nofun, nofun⟩
+  obtain ⟨c, hc, hops, -⟩ := runPatch_of_tr (k_processPatchM o) hP hK0
+  intro op hop
+  have := hops op hop
+  rw [← hc] at this
+  exact this
+
 end PatchModel.C16
+
+#print axioms PatchModel.C16.C16_paths
